@@ -62,6 +62,30 @@ class Enum:
         self.variant, self.payload = variant, payload
 
 
+class Sum2:
+    """two-variant enum with a symbolic discriminant: c1 (B) = 'is the variant numbered 1'"""
+
+    def __init__(self, c1, n0, n1, p0, p1):
+        self.c1, self.n0, self.n1, self.p0, self.p1 = c1, n0, n1, p0, p1
+
+
+class SymEnum:
+    """fieldless-or-tuple enum with a symbolic discriminant (BV) and per-variant payloads"""
+
+    def __init__(self, discr, variants, payloads):
+        self.discr, self.variants, self.payloads = discr, variants, payloads
+
+
+class FnItem:
+    def __init__(self, path):
+        self.path = path
+
+
+class Agg:
+    def __init__(self, name, fields):
+        self.name, self.fields = name, fields
+
+
 class Ref:
     def __init__(self, target):  # ("local", name) or a value / object
         self.target = target
@@ -254,7 +278,7 @@ class Executor:
             raise MirError("symex: field .%d of %r" % (place[2], v))
         if k == "downcast":
             v = self.read(env, place[1])
-            if isinstance(v, (Opt, Enum)):
+            if isinstance(v, (Opt, Enum, Sum2, SymEnum)):
                 return _Downcast(v, place[2])
             raise MirError("symex: downcast of %r" % (v,))
         raise MirError("symex: place kind %s" % k)
@@ -279,12 +303,16 @@ class Executor:
         m = re.match(r"^const \(\)$", op)
         if m:
             return Tup([])
+        if re.fullmatch(r"[A-Za-z_][\w:<>', ]*", op) and "::" in op:
+            return FnItem(op)
         raise MirError("symex: unsupported operand %r" % op)
 
     def rvalue(self, env, rv, dest_ty):
         rv = rv.strip()
         if rv.startswith("no_retag "):
             rv = rv[len("no_retag "):]
+        if re.fullmatch(r"[A-Za-z_][\w]*(::[A-Za-z_]\w*)*::[A-Z]\w*", rv) and not rv.startswith("const"):
+            return Enum(rv.rsplit("::", 1)[1], [])
         if rv.startswith("copy ") or rv.startswith("move ") or rv.startswith("const "):
             m = re.match(r"^(copy|move) (.*) as (\w+) \(IntToInt\)$", rv)
             if m:
@@ -315,6 +343,10 @@ class Executor:
             v = self.read(env, parse_place(m.group(1)))
             if isinstance(v, Opt):
                 return _Discr(v.cond)
+            if isinstance(v, Sum2):
+                return _Discr(v.c1)
+            if isinstance(v, SymEnum):
+                return v.discr
             if isinstance(v, Enum):
                 return _Discr(None, v.variant)
             raise MirError("symex: discriminant of %r" % (v,))
@@ -331,10 +363,20 @@ class Executor:
         m = re.match(r"^(?:std::option::)?Option::<.*>::Some\((.*)\)$", rv)
         if m:
             return Opt(B(True), self.operand(env, m.group(1)))
+        m = re.match(r"^(?:std::cmp::)?Reverse::<.*?>\((.*)\)$", rv)
+        if m:
+            return Enum("Reverse", [self.operand(env, m.group(1))])
         m = re.match(r"^([A-Za-z_][\w:<>, ]*)::([A-Z]\w*)(\((.*)\))?$", rv)
         if m:
             payload = [self.operand(env, x) for x in mir.split_top(m.group(4))] if m.group(4) else []
             return Enum(m.group(2), payload)
+        m = re.match(r"^([A-Za-z_][\w:<>', ]*) \{ (.*) \}$", rv)
+        if m:
+            fields = {}
+            for part in mir.split_top(m.group(2)):
+                k, v = part.split(": ", 1)
+                fields[k.strip()] = self.operand(env, v)
+            return Agg(m.group(1), fields)
         m = re.match(r"^\((.*)\)$", rv)
         if m and "," in rv:
             return Tup([self.operand(env, x) for x in mir.split_top(m.group(1))])
@@ -426,6 +468,10 @@ class Executor:
             if k == "goto" or k == "drop":
                 bb = b.succ[0]
                 continue
+            if k == "dead" and b.term.startswith("unreachable"):
+                # the compiler's own guarantee (e.g. an enum discriminant outside its variants): the path does not exist
+                self.assumptions.add("`unreachable` terminators are unreachable (valid enum discriminants)")
+                return
             if k == "dead":
                 raise MirError("symex: reached %s in %s bb%d" % (b.term, fn.name, bb))
             if k == "assert":
@@ -592,6 +638,14 @@ class _Downcast:
             if i != 0:
                 raise MirError("symex: Option payload field %d" % i)
             return self.v.val
+        if isinstance(self.v, Sum2):
+            if self.variant == self.v.n0:
+                return self.v.p0[i]
+            if self.variant == self.v.n1:
+                return self.v.p1[i]
+            raise MirError("symex: downcast to %s of a %s/%s value" % (self.variant, self.v.n0, self.v.n1))
+        if isinstance(self.v, SymEnum):
+            return self.v.payloads[self.variant][i]
         if self.v.variant != self.variant:
             raise MirError("symex: downcast to %s of enum value %s" % (self.variant, self.v.variant))
         return self.v.payload[i]
@@ -620,14 +674,14 @@ Executor.read = _read
 # solver batch
 # ---------------------------------------------------------------------------------------------
 
-def solve_parallel(decls, queries, solver, timeout=600, procs=8, globals_=()):
+def solve_parallel(decls, queries, solver, timeout=600, procs=8, globals_=(), per_query_ms=30000):
     """split the queries over `procs` solver processes (each incremental) -> same result shape as solve_batch"""
     from concurrent.futures import ThreadPoolExecutor
     chunks = [queries[i::procs] for i in range(procs)]
     chunks = [c for c in chunks if c]
     t0 = time.time()
     with ThreadPoolExecutor(max_workers=len(chunks) or 1) as tp:
-        outs = list(tp.map(lambda c: solve_batch(decls, c, solver, timeout, globals_), chunks))
+        outs = list(tp.map(lambda c: solve_batch(decls, c, solver, timeout, globals_, per_query_ms), chunks))
     res = {}
     for r, dt, raw in outs:
         if r is None:
@@ -636,9 +690,14 @@ def solve_parallel(decls, queries, solver, timeout=600, procs=8, globals_=()):
     return res, time.time() - t0, ""
 
 
-def solve_batch(decls, queries, solver, timeout=600, globals_=()):
-    """queries: [(tag, [assertions])] -> {tag: sat|unsat|unknown}, seconds.  One process, push/pop."""
-    lines = ["(set-logic QF_BV)"] if solver == "cvc5" else ["(set-logic QF_BV)"]
+def solve_batch(decls, queries, solver, timeout=600, globals_=(), per_query_ms=30000):
+    """queries: [(tag, [assertions])] -> {tag: sat|unsat|unknown}, seconds.  One process, push/pop.
+    solvers: cvc5int = cvc5 with the integer encoding of bit-vectors (--solve-bv-as-int=sum; decides the wide
+    add / compare chains of this encoding in milliseconds where bit-blasting needs minutes), cvc5 = cvc5
+    bit-blasting, z3 = /usr/bin/z3 4.8.12, z3new = z3 5.1.0"""
+    lines = ["(set-logic ALL)" if solver == "cvc5int" else "(set-logic QF_BV)"]
+    if solver in ("z3", "z3new"):
+        lines.append("(set-option :timeout %d)" % per_query_ms)
     for n, s in sorted(decls.items()):
         lines.append("(declare-const %s %s)" % (n, s))
     for g in globals_:
@@ -651,7 +710,10 @@ def solve_batch(decls, queries, solver, timeout=600, globals_=()):
         lines.append("(pop 1)")
     text = "\n".join(lines) + "\n"
     cmd = {"z3": ["z3", "-in", "-T:%d" % timeout],
-           "cvc5": ["cvc5", "--lang", "smt2", "--incremental", "--tlimit", str(timeout * 1000)]}[solver]
+           "z3new": ["z3-new", "-in", "-T:%d" % timeout],
+           "cvc5": ["cvc5", "--lang", "smt2", "--incremental", "--tlimit", str(timeout * 1000), "--tlimit-per", str(per_query_ms)],
+           "cvc5int": ["cvc5", "--lang", "smt2", "--incremental", "--solve-bv-as-int=sum", "--tlimit", str(timeout * 1000),
+                       "--tlimit-per", str(per_query_ms)]}[solver]
     t0 = time.time()
     try:
         p = subprocess.run(cmd, input=text, capture_output=True, text=True, timeout=timeout + 30)
@@ -660,9 +722,10 @@ def solve_batch(decls, queries, solver, timeout=600, globals_=()):
     dt = time.time() - t0
     if "(error" in p.stdout or "(error" in p.stderr:
         return None, dt, (p.stdout + p.stderr)[:400]
-    res = [l.strip() for l in p.stdout.splitlines() if l.strip() in ("sat", "unsat", "unknown")]
+    res = [l.strip() for l in p.stdout.splitlines() if l.strip() in ("sat", "unsat", "unknown", "timeout")]
+    res = ["unknown" if r == "timeout" else r for r in res]
     if len(res) != len(queries):
-        return None, dt, "expected %d answers, got %d: %s" % (len(queries), len(res), p.stdout[:300])
+        return None, dt, "expected %d answers, got %d: %s" % (len(queries), len(res), p.stdout[-300:])
     return {q[0]: r for q, r in zip(queries, res)}, dt, text
 
 
@@ -674,7 +737,7 @@ def model_of(decls, asserts, want, timeout=120):
         lines.append("(assert %s)" % a)
     lines.append("(check-sat)")
     lines.append("(get-value (%s))" % " ".join(want))
-    p = subprocess.run(["z3", "-in", "-T:%d" % timeout], input="\n".join(lines) + "\n", capture_output=True, text=True)
+    p = subprocess.run(["z3-new", "-in", "-T:%d" % timeout], input="\n".join(lines) + "\n", capture_output=True, text=True)
     out = {}
     for m in re.finditer(r"\((\w+) (#x[0-9a-f]+|#b[01]+|true|false|\(_ bv\d+ \d+\))\)", p.stdout):
         v = m.group(2)
